@@ -108,8 +108,18 @@ func TestC19Logs(t *testing.T) {
 		var wantR []doubles.TV         // results both sides must end up with
 		n := 3 + r.Intn(25)
 		var trace []string
+		ownSideDone := false
 		for i := 0; i < n; i++ {
 			fail := r.Intn(3) == 0
+			if !ownSideDone && r.Intn(6) == 0 {
+				// the initiator's own transport finishes; the responder's completion is still outstanding
+				// (TransferFinished): the channel lives on and so do its logs
+				A.tp.Events().OnChannelCompleted(chid, nil)
+				settle()
+				ownSideDone = true
+				trace = append(trace, "initiator-transport-finished")
+				c.Count("logs_after_own_side_finished", 1)
+			}
 			switch r.Intn(4) {
 			case 0, 1: // initiator sends a voucher
 				v := gen.Voucher(r, "VT"+fmt.Sprint(r.Intn(3)))
